@@ -46,10 +46,11 @@ class VariantAdapter(tsrules.Adapter):
                 ur = db.records.get(u[0].get('rec') or u[0]['t'])
                 if ur is None:
                     break
-                elem = [f for f in ur['fields'] if not f.get('recunion')]
+                nested = lambda f: bool(f.get('recunion')) and (f.get('rec') or f.get('t') or '').startswith('nop::detail::Union<')
+                elem = [f for f in ur['fields'] if not nested(f)]
                 if elem:
                     paths.append(prefix + (elem[0]['n'],))
-                u = [f for f in ur['fields'] if f.get('recunion')]
+                u = [f for f in ur['fields'] if nested(f)]
             if len(paths) == self.n:
                 self.paths = paths
 
@@ -184,9 +185,9 @@ def explore(chk, db, prefix=''):
     r = None
     # further targets: alternatives of mixed destructibility (the destruction walk) and mutually convertible scalar alternatives
     # (copy / move must keep the source's alternative, not the first one constructible from its value)
-    extra = [q for q in ('nop::Variant<int, Tracked, bool>', 'nop::Variant<int, bool, float>') if q in db.records]
-    if len(extra) != 2:
-        chk.unanalysable(prefix + 'L', 'nop/types/variant.h', 'probe Variants <int, Tracked, bool> / <int, bool, float> not found')
+    extra = [q for q in ('nop::Variant<int, Tracked, bool>', 'nop::Variant<int, bool, float>', 'nop::Variant<int, UAlt>') if q in db.records]
+    if len(extra) != 3:
+        chk.unanalysable(prefix + 'L', 'nop/types/variant.h', 'probe Variants <int, Tracked, bool> / <int, bool, float> / <int, UAlt> not found')
         return None
     for n in list(want_arities) + extra:
         q = cands[n] if n in cands else n
